@@ -122,6 +122,12 @@ Definition req_query_hop ovf addr dest eid mt := control_packet ovf addr dest (r
 Definition req_resolve_uuid ovf addr dest (uuid : list N) handle := control_packet ovf addr dest (req_hdr 16) (uuid ++ [handle]).
 Definition req_query_rate_limit ovf addr dest := control_packet ovf addr dest (req_hdr 17) [].
 
+(* smbus_request.rs:439-487: request_tx_rate_limit, update_rate_limmit, query_supported_interfaces.  All three build
+   the SAME packet (control header with CommandCode::RequestTXRateLimit = 0x12, no data), write it, discard the
+   result and end in unimplemented!(): every call panics, after the buffer has been written (or the writer panicked) *)
+Definition req_stub ovf addr dest : W (option nat) :=
+  fun buf => let '(b, _) := control_packet ovf addr dest (req_hdr 18) [] buf in (b, Panic PUnimpl).
+
 (* smbus_request.rs:496-521 *)
 Definition req_vendor_defined ovf addr dest (format data : N) (msg : list N) : W (option nat) :=
   if format =? 0 then
